@@ -120,12 +120,15 @@ def run(module, cfg, *, spec_dir, workers=None, dump_dot=None, simulate=None, se
     else:
         cfg_path = os.path.abspath(cfg)
     libs = [os.path.join(env.SPECS, "common")] + [os.path.abspath(d) for d in lib_dirs]
+    jtmp = os.path.join(work, "jtmp")
+    os.makedirs(jtmp, exist_ok=True)
     if workers is None:
         workers = env.NCPU
     # a modest heap and few GC threads: many TLC JVMs run side by side (trace batches, shards)
     jopts = ["-XX:+UseParallelGC", "-Xmx%s" % (heap or os.environ.get("VF_TLC_HEAP", "4g")),
              "-XX:ParallelGCThreads=%d" % max(1, min(4, int(workers))),
-             "-DTLA-Library=" + os.pathsep.join(libs)]
+             "-DTLA-Library=" + os.pathsep.join(libs),
+             "-Djava.io.tmpdir=" + jtmp]   # TLC unpacks its standard modules there: keep /tmp clean
     if depth_first:
         jopts.append("-Dtlc2.tool.queue.IStateQueue=StateDeque")
     cmd = ["java"] + jopts + ["-cp", env.JAVA_CP, "tlc2.TLC",
@@ -158,6 +161,7 @@ def run(module, cfg, *, spec_dir, workers=None, dump_dot=None, simulate=None, se
         raise TlcError("TLC timed out after %ss on %s" % (timeout, module)) from ex
     finally:
         shutil.rmtree(os.path.join(work, "meta"), ignore_errors=True)
+        shutil.rmtree(jtmp, ignore_errors=True)
     res = TlcResult()
     res.wall = time.time() - t0
     res.out = p.stdout
